@@ -215,8 +215,14 @@ def _tdms_props(props):
     return out
 
 
-def writer_file(root_props, group_props, chan_props, segments):
-    """segments: list of data arrays (numpy array, or list of str) for channel /'g'/'c'."""
+def gpath(group, chan=None):
+    """TDMS object path of a group / channel (quotes doubled)"""
+    p = "/'%s'" % group.replace("'", "''")
+    return p if chan is None else p + "/'%s'" % chan.replace("'", "''")
+
+
+def writer_file(root_props, group_props, chan_props, segments, group="g"):
+    """segments: list of data arrays (numpy array, or list of str) for channel /'<group>'/'c'."""
     from nptdms import TdmsWriter, RootObject, GroupObject, ChannelObject
     buf = io.BytesIO()
     with TdmsWriter(buf) as w:
@@ -224,14 +230,14 @@ def writer_file(root_props, group_props, chan_props, segments):
         for data in segments:
             objs = []
             if first:
-                objs = [RootObject(_tdms_props(root_props)), GroupObject("g", _tdms_props(group_props))]
-            objs.append(ChannelObject("g", "c", data, _tdms_props(chan_props) if first else {}))
+                objs = [RootObject(_tdms_props(root_props)), GroupObject(group, _tdms_props(group_props))]
+            objs.append(ChannelObject(group, "c", data, _tdms_props(chan_props) if first else {}))
             w.write_segment(objs)
             first = False
     return buf.getvalue()
 
 
-def raw_order_file(root_props, group_props, chan_props, segments, order):
+def raw_order_file(root_props, group_props, chan_props, segments, order, group="g"):
     """The same content as writer_file, encoded by hand with the objects in an order TdmsWriter never produces
     (it always writes root, group, channel).  order:
       "chan_first"  one object list: channel, group, root;
@@ -245,16 +251,16 @@ def raw_order_file(root_props, group_props, chan_props, segments, order):
     for si, data in enumerate(segments):
         idx = struct.pack("<IIIQ", 20, TDS_TYPE[data.dtype.name], 1, len(data))
         first = si == 0
-        ch = _raw_object("/'g'/'c'", idx, chan_props if first else {})
+        ch = _raw_object(gpath(group, "c"), idx, chan_props if first else {})
         if order == "chan_first":
-            objs = [ch] + ([_raw_object("/'g'", NO_DATA, group_props), _raw_object("/", NO_DATA, root_props)]
+            objs = [ch] + ([_raw_object(gpath(group), NO_DATA, group_props), _raw_object("/", NO_DATA, root_props)]
                            if first else [])
         else:
             objs = [ch]
         raw = data.astype(data.dtype.newbyteorder("<")).tobytes()
         out += _segment(objs, raw, TOC_META | TOC_NEWOBJ | TOC_RAW)
     if order == "late_group":
-        out += _segment([_raw_object("/'g'", NO_DATA, group_props), _raw_object("/", NO_DATA, root_props)], b"", TOC_META)
+        out += _segment([_raw_object(gpath(group), NO_DATA, group_props), _raw_object("/", NO_DATA, root_props)], b"", TOC_META)
     return out
 
 
